@@ -87,3 +87,77 @@ def uses_late():
 def bad_local_import():
     from lena.beta import no_such_name      # VIOLATION on purpose
     return no_such_name
+
+
+import lena.core
+
+
+def raises_good(key):
+    raise lena.core.LenaKeyError(key)
+
+
+def raises_good_deep(key):
+    raise lena.core.exceptions.LenaKeyError(key)
+
+
+def raises_builtin(key):
+    raise KeyError(key)                     # VIOLATION on purpose: LenaKeyError wraps KeyError
+
+
+def raises_bad(key):
+    raise lena.core.BadError(key)           # VIOLATION on purpose: not a LenaException
+
+
+def raises_unwrapped():
+    raise StopIteration                     # fine: no lena exception wraps StopIteration
+
+
+class Proxy(object):
+    def __getattr__(self, name):
+        raise AttributeError(name)          # fine: Python's attribute protocol asks for it
+
+    def lookup(self, name):
+        raise AttributeError(name)          # VIOLATION on purpose: LenaAttributeError wraps AttributeError
+
+
+def alias_ok(x):
+    m = lena.beta.util                      # an alias of a module is followed
+    d = m.double
+    return d(x)
+
+
+def alias_bad(x):
+    m = lena.beta
+    return m.no_such_function(x)            # VIOLATION on purpose: AttributeError on a lena module, through an alias
+
+
+def guarded():
+    try:
+        return unicode                      # fine: the handler catches the NameError
+    except NameError:
+        return str
+
+
+def guarded_attr():
+    try:
+        return lena.beta.not_there
+    except AttributeError:
+        return None                         # fine
+
+
+def not_guarded():
+    try:
+        return unicode                      # VIOLATION on purpose: the handler catches something else
+    except KeyError:
+        return str
+
+
+def maybe_unbound(flag):
+    if flag:
+        value = 1
+    return value                            # VIOLATION on purpose: UnboundLocalError when flag is false
+
+
+def retry_optional():
+    import lena.alpha.optional              # imported again after a failed import (environment without jinja2)
+    return lena.alpha.optional.fancy_table
